@@ -18,7 +18,9 @@ RULE = ("case = (notation, hour, minute, latent on/off, reference time); every o
 ASSUMPTIONS = ["configuration D (timeout=0)",
                "an 'H o'clock' resolution may leave the minute unspecified (read as :00)",
                "excluded with the competing reading recorded: H.MM that is also a dd.mm date, HHMM that is also a year "
-               "19xx/200x-202x, bare digit + part of day, 'am morgen'"]
+               "19xx/200x-202x (static family; the family HHMM/yearlike decides these numbers too, under reference times of the "
+               "neighbouring years, and excludes only what the library's documented heuristic reads as a year: the reference year "
+               "and the year three months ahead), bare digit + part of day, 'am morgen'"]
 
 REF0 = datetime(2021, 3, 10, 12, 43, 30)
 ANCHOR_DATES = [date(2019, 12, 31), date(2020, 2, 28), date(2020, 2, 29), date(2021, 2, 28), date(2022, 4, 30),
